@@ -15,8 +15,9 @@ type Val interface{}
 
 // StructV: a struct value (immutable; updates copy).
 type StructV struct {
-	Typ types.Type // the (possibly named) struct type
-	F   []Val
+	Typ  types.Type // the (possibly named) struct type
+	F    []Val
+	Orig *T // the SMT term this value was reflected from (nil once modified)
 }
 
 // PathEl: a step from an object into a sub-location.
@@ -456,6 +457,9 @@ func (e *Engine) reify(st *State, v Val, t types.Type) T {
 		}
 		return e.fresh("nilval", so)
 	case *StructV:
+		if x.Orig != nil && x.Orig.So == so {
+			return *x.Orig
+		}
 		u := t.Underlying().(*types.Struct)
 		var sb strings.Builder
 		fmt.Fprintf(&sb, "(mk_%s", so)
@@ -581,7 +585,8 @@ func (e *Engine) reflect(st *State, x T, t types.Type) Val {
 			return &OpaqueV{Tag: "any", Data: map[string]Val{"dyn": x}}
 		}
 		so := e.structSort(t, u)
-		sv := &StructV{Typ: t, F: make([]Val, u.NumFields())}
+		orig := x
+		sv := &StructV{Typ: t, F: make([]Val, u.NumFields()), Orig: &orig}
 		for i := 0; i < u.NumFields(); i++ {
 			f := u.Field(i)
 			ft := T{S: fmt.Sprintf("(%s_%s %s)", so, f.Name(), x.S), So: e.sortOf(f.Type())}
